@@ -146,6 +146,13 @@ class Strikethrough(SpanToken):
     This is an inline token. Its children are inline (span) tokens.
     """
     pattern = re.compile(r"(?<!\\)(?:\\\\)*~~(.+?)~~", re.DOTALL)
+    # the token proper, without the escaped backslashes that may stand before it
+    tildes_pattern = re.compile(r"~~(.+?)~~", re.DOTALL)
+
+    @classmethod
+    def find(cls, string):
+        return [cls.tildes_pattern.match(string, match.start() + match.group(0).index('~~'))
+                for match in cls.pattern.finditer(string)]
 
 
 class Image(SpanToken):
